@@ -18,3 +18,7 @@ package responsewriter
 //@   ensures [err-kind] err != nil ==> err == noresponse.ErrMessageNotInterested
 //@   ensures [refused-leaves-unmodified] err != nil ==> r.response.isModified == old(r.response.isModified) && r.response.msg.Code == old(r.response.msg.Code) && len(r.response.msg.Options) == old(len(r.response.msg.Options))
 //@   ensures [accepted] err == nil ==> r.response.isModified && r.response.msg.Code == code
+//
+//@ func (*ResponseWriter) Message() (m *pool.Message)
+//@   requires r != nil
+//@   ensures [get] m == r.response
